@@ -130,7 +130,7 @@ def make_segment(read, seqs, header):
        keys: name, chr, blocks; optional: reverse(bool), mapq(int, 60), secondary, supplementary, unmapped,
              clip_left(str), clip_right(str), hard_left(int), hard_right(int),
              edits: [[block_index, offset_in_block, 'I'|'D'|'X', length]]  (offset counted in reference bases from block start)
-             tags: {"RG": "x"}, seq_override
+             tags: {"RG": "x"}, seq_override, block_seq: {block_index: query bases of that (edit-free) block, e.g. an aligned polyA tail}
     """
     import pysam
     a = pysam.AlignedSegment(header)
@@ -161,6 +161,12 @@ def make_segment(read, seqs, header):
         if i:
             cig.append((3, s - blocks[i - 1][1] - 1))
         pos = s
+        if i in read.get("block_seq", {}) or str(i) in read.get("block_seq", {}):
+            bs = read["block_seq"].get(i) or read["block_seq"].get(str(i))
+            assert len(bs) == e - s + 1, "block_seq length mismatch"
+            cig.append((0, e - s + 1))
+            q.append(bs)
+            continue
         for off, kind, ln in sorted(edits.get(i, [])):
             at = s + off
             if at > pos:
